@@ -44,7 +44,7 @@ def run(ctx):
     cpath = os.path.join(ctx.tmp, "c14cases.ndjson")
     vf.write_ndjson(cpath, cases)
     out = os.path.join(ctx.tmp, "c14.ndjson")
-    ctx.run_vh(["inspect", "-cases", cpath, "-out", out, "-n", ctx.pick(2000, 60000), "-two", ctx.pick(4000, 65536)])
+    ctx.run_vh(["inspect", "-cases", cpath, "-out", out, "-n", ctx.pick(2000, 400000), "-two", ctx.pick(4000, 65536)])
     events = vf.read_ndjson(out)
     os.unlink(out)
     judge(ctx, events)
